@@ -41,8 +41,7 @@ def opDom (j : Json) : Except String Json := do
   let calls ← asList (← field j "calls")
   withMat rows os.length fun m n A => do
     let o : Vec n Obj := vecOf os n
-    let A' := tabulate2 A
-    let rs ← calls.mapM (oneCall A' o)
+    let rs ← calls.mapM (oneCall A o)
     pure (obj [("replies", jList id rs)])
 
 end Skc.Drv.DomOps
